@@ -122,9 +122,24 @@ def tv_pipeline(run, nitems):
         except OSError: pass
 
 
+def rule_pool(run, modes):
+    """generated rule texts (Grammar) for the pipeline workloads: ASTs from TLC, printed by the harness, kept only if the real parser accepts them"""
+    paths = []
+    for mode in modes:
+        asts = gen_rules(run, mode)
+        txt = os.path.join(BUILD, "pool-%s-%s.txt" % (run.pid, mode))
+        p = __import__("subprocess").run([HARNESS, "ruletexts", asts, txt], stdout=__import__("subprocess").PIPE, stderr=__import__("subprocess").PIPE, text=True)
+        if p.returncode != 0:
+            raise ToolError("ruletexts failed: " + p.stderr[-1000:])
+        os.remove(asts)
+        paths.append(txt)
+    return ":".join(paths)
+
+
 def schedules(run, kinds, instances):
     ensure_corpus()
-    res = run_tlc("GEN_Pipeline", "gen/GEN_Pipeline.tla", "gen/GEN_Pipeline_%s.cfg" % run.tier, env=dict(run.known_env(), VERIF_KINDS=kinds, VERIF_INSTANCES=instances),
+    pool = rule_pool(run, ["any", "pairs"])
+    res = run_tlc("GEN_Pipeline", "gen/GEN_Pipeline.tla", "gen/GEN_Pipeline_%s.cfg" % run.tier, env=dict(run.known_env(), VERIF_KINDS=kinds, VERIF_INSTANCES=instances, VERIF_RULEPOOL=pool),
                   consumer=[HARNESS, "replay", "pipeline"], timeout=6000, workers=4)
     run.add_tlc("GEN_Pipeline", res, "S->I: schedules (%s) enumerated exhaustively by TLC within the bound, each instantiated %d times with real rules (repository tests, "
                                      "shipped Indo-European project) and words; the law checked on the real code" % (kinds, instances))
